@@ -241,6 +241,13 @@ pub fn gradient_src(ctx: &Ctx, ext: f32) -> BoxedStrategy<SrcSpec> {
             // extent >= 1px
             let (dx, dy) = (x1 - x0, y1 - y0);
             let (x1, y1) = if (dx * dx + dy * dy).sqrt() < 1.0 { (x0 + 3.0, y0 + 1.0) } else { (x1, y1) };
+            // one in four is exactly horizontal or exactly vertical, in either direction
+            let axis = (x0.to_bits() >> 3) & 7;
+            let (x1, y1) = match axis {
+                0 if (x1 - x0).abs() >= 1.0 => (x1, y0),
+                1 if (y1 - y0).abs() >= 1.0 => (x0, y1),
+                _ => (x1, y1),
+            };
             SrcSpec::Linear { stops, spread, x0, y0, x1, y1 }
         }),
         (stops(ctx), 0u8..3, c(), c(), 1.0f32..ext + 4.0).prop_map(|(stops, spread, cx, cy, r)| SrcSpec::Radial { stops, spread, cx, cy, r }),
